@@ -148,11 +148,12 @@ ATOMS: list[dict] = [
     _a("exclude", "path", "value", "/items/{item_id}"),
     _a("exclude", "path", "list", ["/users", "/items"]),
     _a("exclude", "path", "regex", "^/items"),  # same filter as the include above: the pair must be refused
-    _a("include", "method", "value", "GET"),
-    _a("include", "method", "list", ["POST", "PUT"]),
+    # method filters are case-insensitive (the repository's own test_method_filter uses lower case): mixed spellings on purpose
+    _a("include", "method", "value", "get"),
+    _a("include", "method", "list", ["post", "Put"]),
     _a("include", "method", "regex", "^(DELETE|PUT)$"),
     _a("exclude", "method", "value", "DELETE"),
-    _a("exclude", "method", "list", ["POST", "PUT"]),  # same as the include list
+    _a("exclude", "method", "list", ["post", "Put"]),  # same as the include list
     _a("exclude", "method", "regex", "^P"),
     _a("include", "name", "value", "GET /users/{id}"),
     _a("include", "name", "list", ["POST /users", "POST /items"]),
